@@ -501,6 +501,9 @@ func (s *Sess) Drop() { s.Eng = nil; s.Pe = nil }
 
 // Request serves one client request. fresh forces a restart before it.
 func (s *Sess) Request(input []byte, fresh bool) *Step {
+	if input == nil {
+		input = []byte{} // "no input" is the empty input; a nil slice is not something a gateway hands to Exec
+	}
 	st := Step{Input: string(input)}
 	if fresh || s.Eng == nil {
 		st.Fresh = true
